@@ -60,6 +60,7 @@ type c10p struct {
 	a, b, c int // op indices (c = -1 for pairs)
 	traffic bool
 	sim     bool
+	legacy  bool // stateful legacy character set (HZ-GB2312)
 }
 
 var c10table []c10p
@@ -79,6 +80,17 @@ func c10Scenarios() []scenario {
 			}
 		}
 	}
+	// the same calls where the locale selects a stateful encoder (shared mutable object behind
+	// encodeRune / CanDisplay): every pair with at least one drawing or charset-dependent call
+	var legacyPairs []string
+	charsetOps := map[string]bool{"Show": true, "Sync": true, "CanDisplay": true, "CharacterSet": true, "RegisterRuneFallback": true, "UnregisterRuneFallback": true, "SetSize": true, "Fill": true}
+	for a := range ops {
+		for b := a; b < len(ops); b++ {
+			if charsetOps[ops[a].name] || charsetOps[ops[b].name] {
+				add(&legacyPairs, c10p{a: a, b: b, c: -1, traffic: true, legacy: true})
+			}
+		}
+	}
 	if hc.Thorough() {
 		mut := []int{0, 1, 2, 4, 6, 7, 10, 11, 21, 23, 26, 32}
 		for i, a := range mut {
@@ -90,7 +102,8 @@ func c10Scenarios() []scenario {
 		}
 	}
 	out := []scenario{{name: "pairs", params: pairs, bound: 1, maxExecQ: 6, maxExecT: 300, prog: c10prog, check: c10check},
-		{name: "sim-pairs", params: simPairs, bound: 1, maxExecQ: 6, maxExecT: 300, prog: c10prog, check: c10check}}
+		{name: "sim-pairs", params: simPairs, bound: 1, maxExecQ: 6, maxExecT: 300, prog: c10prog, check: c10check},
+		{name: "pairs-stateful-charset", params: legacyPairs, bound: 1, maxExecQ: 4, maxExecT: 100, prog: c10prog, check: c10check}}
 	if len(triples) > 0 {
 		out = append(out, scenario{name: "triples", params: triples, bound: 0, maxExecT: 20, prog: c10prog, check: c10check})
 	}
@@ -124,9 +137,20 @@ func c10prog(ps string, res *result) func() {
 			ss.SetSize(4, 2)
 			s = ss
 		} else {
+			rigLocale = "en_US.UTF-8"
+			if p.legacy {
+				rigLocale = "zh_CN.GB2312"
+			}
 			r = newRig(4, 2)
+			rigLocale = "en_US.UTF-8"
 			s = r.s
 			c10rig = r
+			if p.legacy {
+				if cs := s.CharacterSet(); cs != "GB2312" {
+					panic("stateful charset rig selected " + cs)
+				}
+				s.SetContent(2, 0, 0x4e16, nil, tcell.StyleDefault) // two-byte character: the encoder leaves ASCII mode
+			}
 		}
 		// content with a non-palette colour that has not been drawn yet: the first Show of the
 		// program has to extend the colour cache
@@ -175,7 +199,7 @@ func c10check(ps string, o verifrt.Outcome, res *result) string {
 	fmt.Sscan(ps, &idx)
 	p := c10table[idx]
 	ops := apiOps()
-	tag := fmt.Sprintf("  [%s || %s, sim=%v]", ops[p.a].name, ops[p.b].name, p.sim)
+	tag := fmt.Sprintf("  [%s || %s, sim=%v, stateful-charset=%v]", ops[p.a].name, ops[p.b].name, p.sim, p.legacy)
 	if o.Panic != "" {
 		return "panic: " + o.Panic + tag
 	}
